@@ -1,4 +1,6 @@
-use common_lang_types::{EntityName, QueryExtraInfo, QueryOperationName, derive_display};
+use common_lang_types::{
+    EntityName, QueryExtraInfo, QueryOperationName, QueryText, derive_display,
+};
 use intern::string_key::Intern;
 use isograph_config::PersistedDocumentsHashAlgorithm;
 use isograph_lang_types::VariableDeclaration;
@@ -62,6 +64,12 @@ pub(crate) fn generate_operation_text<'a, TCompilationProfile: CompilationProfil
             {indent}}}"
         )),
     }
+}
+
+/// The content of a query text module. The query text is the body of a single-quoted
+/// JavaScript string, so an apostrophe in it (e.g. in a string argument) must be escaped.
+pub(crate) fn query_text_file_content(query_text: &QueryText) -> String {
+    format!("export default '{}';", query_text.0.replace('\'', "\\'"))
 }
 
 pub fn hash(data: &str, algorithm: PersistedDocumentsHashAlgorithm) -> String {
